@@ -47,7 +47,7 @@ func runC11(c *Ctx) {
 	f := p.Fn("(*rt/client.request).buildHTTP")
 	g := goClosure(f)
 	if g == nil {
-		c.obF("R11.4", f, "multipart-writer-goroutine", false, "the multipart document is written by a goroutine into a pipe", "no go statement with a function literal found")
+		c.obRF("R11.4", f, "multipart-writer-goroutine", false, "the multipart document is written by a goroutine into a pipe", "no go statement with a function literal found")
 		return
 	}
 
@@ -96,14 +96,14 @@ func runC11(c *Ctx) {
 			}
 		}
 	}
-	c.obF("R11.1", g, "sniffing-read", nRead >= 1, "the upload's first bytes are read for sniffing", "")
+	c.obRF("R11.1", g, "sniffing-read", nRead >= 1, "the upload's first bytes are read for sniffing", "")
 	// sniffed type from buf[:n]; part body = MultiReader(NewReader(buf[:n]), original)
 	for _, d := range callsIn(g, "net/http.DetectContentType") {
 		_, isSl := d.Common().Args[0].(*ssa.Slice)
 		c.obI("R11.1", d, "sniffs-read-content", isSl, "the part's content type is sniffed from the bytes actually read", "")
 	}
 	copies := callsIn(g, "io.Copy")
-	c.obF("R11.4", g, "copies-files", len(copies) == 1, "each file is copied into its part", fmt.Sprintf("%d io.Copy", len(copies)))
+	c.obRF("R11.4", g, "copies-files", len(copies) == 1, "each file is copied into its part", fmt.Sprintf("%d io.Copy", len(copies)))
 	var fileLoopElem ssa.Value
 	for _, l := range sliceLoops(g, nil) {
 		if strings.Contains(typeStr(l.X.Type()), "NamedReadCloser") {
@@ -141,7 +141,7 @@ func runC11(c *Ctx) {
 		gbStores = append(gbStores, st)
 	}
 	auths := callsIn(f, "(rt.ClientAuthInfoWriter).AuthenticateRequest")
-	c.obF("R11.2", f, "override-and-auth", len(gbStores) == 1 && len(auths) == 1, "buildHTTP installs a GetBody override before calling the auth writer", fmt.Sprintf("%d stores, %d auth calls", len(gbStores), len(auths)))
+	c.obRF("R11.2", f, "override-and-auth", len(gbStores) == 1 && len(auths) == 1, "buildHTTP installs a GetBody override before calling the auth writer", fmt.Sprintf("%d stores, %d auth calls", len(gbStores), len(auths)))
 	if len(gbStores) == 1 && len(auths) == 1 {
 		st, au := gbStores[0], auths[0]
 		var bodyCell *ssa.Alloc
@@ -322,7 +322,7 @@ func runC11(c *Ctx) {
 	// R11.3 content type
 	mws := callsIn(f, "mime/multipart.NewWriter")
 	pipes := callsIn(f, "io.Pipe")
-	c.obF("R11.3", f, "pipe-and-writer", len(mws) == 1 && len(pipes) == 1, "one pipe, one multipart writer", fmt.Sprintf("%d/%d", len(pipes), len(mws)))
+	c.obRF("R11.3", f, "pipe-and-writer", len(mws) == 1 && len(pipes) == 1, "one pipe, one multipart writer", fmt.Sprintf("%d/%d", len(pipes), len(mws)))
 	if len(mws) == 1 && len(pipes) == 1 {
 		mw, pipe := mws[0].(*ssa.Call), pipes[0].(*ssa.Call)
 		okW, _ := allOrigins(mw.Call.Args[0], oIsValue(resultOf(pipe, 1)))
@@ -385,7 +385,7 @@ func runC11(c *Ctx) {
 			}
 		}
 		nrs := callsIn(f, "net/http.NewRequestWithContext", "net/http.NewRequest")
-		c.obF("R11.3", f, "payload-branch", gate != nil && len(nrs) == 1, "buildHTTP has a payload branch and builds one http.Request", "")
+		c.obRF("R11.3", f, "payload-branch", gate != nil && len(nrs) == 1, "buildHTTP has a payload branch and builds one http.Request", "")
 		if gate != nil && len(nrs) == 1 {
 			noPayload := factNil(isPayload, true)
 			isCTSet := func(in ssa.Instruction) bool {
@@ -417,7 +417,7 @@ func runC11(c *Ctx) {
 			c.obI("R11.3", gate, "payload-through-producer", !pathExists(f, gate, nrs[0], anyFact(noPayload, isReader), isProduce), "a payload that is not a reader is always encoded by the producer chosen for the media type (no Go type of payload bypasses it)", "a path with a non-reader payload reaches http.NewRequest without the producer having run")
 		}
 	}
-	c.obF("R11.3", f, "sets-content-type", nCT >= 3, "each body-carrying path sets the Content-Type", fmt.Sprintf("%d sites", nCT))
+	c.obRF("R11.3", f, "sets-content-type", nCT >= 3, "each body-carrying path sets the Content-Type", fmt.Sprintf("%d sites", nCT))
 	mc := p.Fn("rt/client.mangleContentType")
 	for _, r := range returnsOf(mc) {
 		uses := valueMentions(r.Results[0], mc.Params[1], 6)
@@ -514,6 +514,11 @@ func runC11(c *Ctx) {
 			}
 			return okR
 		}))
+		if !ok && len(callsIn(eq, "(*strings.Replacer).Replace")) == 0 {
+			// escaping written by hand (a byte loop …): what it produces is a runtime value this rule cannot read
+			c.obRI("R11.4", r, "escapeQuotes-always-replaces", false, "escapeQuotes returns the result of the replacer mapping \\ to \\\\ and \" to \\\"", "escapeQuotes no longer uses a strings.Replacer: its output cannot be decided structurally")
+			continue
+		}
 		c.obI("R11.4", r, "escapeQuotes-always-replaces", ok, "escapeQuotes always returns the result of the replacer mapping \\ to \\\\ and \" to \\\" applied to its argument (no shortcut returns the text unescaped)", "origin "+describeOrigin(bad))
 	}
 	c.min("R11.4", 8)
@@ -546,7 +551,7 @@ func runC11(c *Ctx) {
 				n++
 			}
 		}
-		c.obF("R11.5", mf, "forwards", n == 1, "namedReadCloser."+m+" forwards to the wrapped reader", "")
+		c.obRF("R11.5", mf, "forwards", n == 1, "namedReadCloser."+m+" forwards to the wrapped reader", "")
 	}
 	c.min("R11.5", 4)
 }
